@@ -834,13 +834,15 @@ func (p *Parser) addString(s string, off int) error {
 	}
 	if p.plus {
 		p.plus = false
-		if 0 < len(p.stack) {
-			prev, ok := p.stack[len(p.stack)-1].(string)
-			if !ok {
-				return p.newError(off, "a string can only be appended to a string")
-			}
-			p.stack[len(p.stack)-1] = prev + s
+		if len(p.stack) == 0 {
+			return p.newError(off, "a string can only be appended to a string")
 		}
+		prev, ok := p.stack[len(p.stack)-1].(string)
+		if !ok {
+			return p.newError(off, "a string can only be appended to a string")
+		}
+		p.stack[len(p.stack)-1] = prev + s
+
 		return nil
 	}
 	// TBD if time option for @ and length is over a certain size try as time
